@@ -895,7 +895,7 @@ package rtcp
 //@   ensures[C07] type: err == nil ==> rawPacket[0]>>6 == 2 && rawPacket[1] == 205 && rawPacket[0]&31 == 15
 //@   ensures[C04,C13] fixed: err == nil ==> t.SenderSSRC == be32(rawPacket, 4) && t.MediaSSRC == be32(rawPacket, 8) && t.BaseSequenceNumber == be16(rawPacket, 12) && t.PacketStatusCount == be16(rawPacket, 14) && t.ReferenceTime == be24(rawPacket, 16) && t.FbPktCount == rawPacket[19]
 //@   ensures[C04,C09] header: err == nil ==> t.Header == Header{Padding: rawPacket[0]>>5&1 == 1, Count: 15, Type: TypeTransportSpecificFeedback, Length: be16(rawPacket, 2)}
-//@   ensures[C13] framed: err == nil ==> 4*(int(be16(rawPacket, 2))+1) <= len(rawPacket) && be16(rawPacket, 2) < 16383 && 20 + 2*len(t.PacketChunks) <= 4*(int(be16(rawPacket, 2))+1)
+//@   ensures[C13] framed: err == nil ==> 20 + 2*len(t.PacketChunks) <= 4*(int(be16(rawPacket, 2))+1) && 20 + 2*len(t.PacketChunks) <= len(rawPacket)
 //@   ensures[C13] deltatypes: forall k :: err == nil && 0 <= k && k < len(t.RecvDeltas) ==> t.RecvDeltas[k] != nil && (t.RecvDeltas[k].Type == 1 || t.RecvDeltas[k].Type == 2)
 //@   ensures[C13] count: err == nil ==> len(t.RecvDeltas) <= int(t.PacketStatusCount)
 //@   loop 1
@@ -911,15 +911,15 @@ package rtcp
 //@     invariant[C01] allocated() <= before(allocated()) + 24*int(j)
 //@     decreases int(packetNumberToProcess) - int(j)
 //@   loop 3
-//@     invariant 0 <= j && j <= len(packetStatus.SymbolList) && len(t.RecvDeltas) <= before(len(t.RecvDeltas)) + j && len(t.RecvDeltas) >= before(len(t.RecvDeltas)) && unchanged(t.PacketChunks) && unchanged(t.PacketStatusCount) && unchanged(t.Header) && unchanged(t.SenderSSRC) && unchanged(t.MediaSSRC) && unchanged(t.BaseSequenceNumber) && unchanged(t.ReferenceTime) && unchanged(t.FbPktCount) && unchanged(packetStatus.SymbolSize) && unchanged(len(packetStatus.SymbolList))
+//@     invariant 0 <= j && j <= symbolsToProcess && symbolsToProcess <= len(packetStatus.SymbolList) && len(t.RecvDeltas) <= before(len(t.RecvDeltas)) + j && len(t.RecvDeltas) >= before(len(t.RecvDeltas)) && unchanged(t.PacketChunks) && unchanged(t.PacketStatusCount) && unchanged(t.Header) && unchanged(t.SenderSSRC) && unchanged(t.MediaSSRC) && unchanged(t.BaseSequenceNumber) && unchanged(t.ReferenceTime) && unchanged(t.FbPktCount) && unchanged(packetStatus.SymbolSize) && unchanged(len(packetStatus.SymbolList))
 //@     invariant[C01,C13] forall k :: 0 <= k && k < len(t.RecvDeltas) ==> t.RecvDeltas[k] != nil && (t.RecvDeltas[k].Type == 1 || t.RecvDeltas[k].Type == 2)
-//@     invariant[C01] allocated() <= before(allocated()) + 24*j
-//@     decreases len(packetStatus.SymbolList) - j
+//@     invariant[C01] allocated() <= before(allocated()) + 24*(len(t.RecvDeltas) - before(len(t.RecvDeltas)))
+//@     decreases symbolsToProcess - j
 //@   loop 4
-//@     invariant 0 <= j && j <= len(packetStatus.SymbolList) && len(t.RecvDeltas) <= before(len(t.RecvDeltas)) + j && len(t.RecvDeltas) >= before(len(t.RecvDeltas)) && unchanged(t.PacketChunks) && unchanged(t.PacketStatusCount) && unchanged(t.Header) && unchanged(t.SenderSSRC) && unchanged(t.MediaSSRC) && unchanged(t.BaseSequenceNumber) && unchanged(t.ReferenceTime) && unchanged(t.FbPktCount) && unchanged(packetStatus.SymbolSize) && unchanged(len(packetStatus.SymbolList))
+//@     invariant 0 <= j && j <= symbolsToProcess && symbolsToProcess <= len(packetStatus.SymbolList) && len(t.RecvDeltas) <= before(len(t.RecvDeltas)) + j && len(t.RecvDeltas) >= before(len(t.RecvDeltas)) && unchanged(t.PacketChunks) && unchanged(t.PacketStatusCount) && unchanged(t.Header) && unchanged(t.SenderSSRC) && unchanged(t.MediaSSRC) && unchanged(t.BaseSequenceNumber) && unchanged(t.ReferenceTime) && unchanged(t.FbPktCount) && unchanged(packetStatus.SymbolSize) && unchanged(len(packetStatus.SymbolList))
 //@     invariant[C01,C13] forall k :: 0 <= k && k < len(t.RecvDeltas) ==> t.RecvDeltas[k] != nil && (t.RecvDeltas[k].Type == 1 || t.RecvDeltas[k].Type == 2)
-//@     invariant[C01] allocated() <= before(allocated()) + 24*j
-//@     decreases len(packetStatus.SymbolList) - j
+//@     invariant[C01] allocated() <= before(allocated()) + 24*(len(t.RecvDeltas) - before(len(t.RecvDeltas)))
+//@     decreases symbolsToProcess - j
 //@   loop 5
 //@     invariant 0 <= iter() && iter() <= len(t.RecvDeltas) && recvDeltasPos <= totalLength && unchanged(len(t.RecvDeltas)) && unchanged(t.PacketChunks) && unchanged(t.PacketStatusCount) && unchanged(t.Header) && unchanged(t.SenderSSRC) && unchanged(t.MediaSSRC) && unchanged(t.BaseSequenceNumber) && unchanged(t.ReferenceTime) && unchanged(t.FbPktCount)
 //@     invariant[C01,C13] forall k :: 0 <= k && k < len(t.RecvDeltas) ==> t.RecvDeltas[k] != nil && (t.RecvDeltas[k].Type == 1 || t.RecvDeltas[k].Type == 2)
@@ -929,3 +929,23 @@ package rtcp
 //@   safety[C09,C10]
 //@   fresh
 //@   ensures[C10] one: len(result) == 1 && result[0] == t.MediaSSRC
+
+//@ func (t *TransportLayerCC) packetLen() (result uint16)
+//@   safety[C09,C17]
+//@   mathint
+//@   requires nonnil: forall k :: 0 <= k && k < len(t.RecvDeltas) ==> t.RecvDeltas[k] != nil
+//@   ensures size: int(result) == (20 + 2*len(t.PacketChunks) + specDeltasLen(t.RecvDeltas, len(t.RecvDeltas))) % 65536
+//@   ensures nonneg: specDeltasLen(t.RecvDeltas, len(t.RecvDeltas)) >= 0
+//@   loop 1
+//@     invariant 0 <= iter() && iter() <= len(t.RecvDeltas) && int(n) == (20 + 2*len(t.PacketChunks) + specDeltasLen(t.RecvDeltas, iter())) % 65536 && specDeltasLen(t.RecvDeltas, iter()) >= 0
+//@     decreases len(t.RecvDeltas) - iter()
+
+//@ func (t *TransportLayerCC) MarshalSize() (result int)
+//@   safety[C09,C17]
+//@   requires nonnil: forall k :: 0 <= k && k < len(t.RecvDeltas) ==> t.RecvDeltas[k] != nil
+//@   ensures size: 20 + 2*len(t.PacketChunks) + specDeltasLen(t.RecvDeltas, len(t.RecvDeltas)) <= 65532 ==> result == 20 + 2*len(t.PacketChunks) + specDeltasLen(t.RecvDeltas, len(t.RecvDeltas)) + specPad4(20 + 2*len(t.PacketChunks) + specDeltasLen(t.RecvDeltas, len(t.RecvDeltas)))
+//@   ensures aligned: result%4 == 0 && result >= 0 && result <= 65536
+
+//@ func (t *TransportLayerCC) Len() (result uint16)
+//@   safety[C09,C17]
+//@   requires nonnil: forall k :: 0 <= k && k < len(t.RecvDeltas) ==> t.RecvDeltas[k] != nil
